@@ -1,1 +1,187 @@
-fn main() { let c = rzmq::verif::EngineCfg::new("PUSH"); let _e = c.engine(true); println!("ok"); }
+use rzmq::socket::options as opt;
+use rzmq::SocketType;
+use std::time::{Duration, Instant};
+use vh::util;
+// usage: probe <case> <iterations>
+fn main() {
+  let which = std::env::args().nth(1).unwrap_or("A".into());
+  let iters: usize = std::env::args().nth(2).and_then(|x| x.parse().ok()).unwrap_or(50);
+  let rt = util::runtime(4);
+  let mut hangs = 0;
+  for it in 0..iters {
+    let r = rt.block_on(async {
+      let ctx = util::new_ctx();
+      match which.as_str() {
+        "A" => {
+          // set_option racing with term
+          let s = ctx.socket(SocketType::Pull).unwrap();
+          let ep = util::bind_fresh(&s, util::Transport::Tcp).await.unwrap();
+          let p = ctx.socket(SocketType::Push).unwrap();
+          p.connect(&ep).await.unwrap();
+          let s2 = s.clone();
+          let h = tokio::spawn(async move {
+            for _ in 0..2000 {
+              if s2.set_option(opt::SNDTIMEO, -1).await.is_err() { return true; }
+            }
+            true
+          });
+          tokio::time::sleep(Duration::from_micros((it as u64 * 37) % 3000)).await;
+          let _ = ctx.term().await;
+          tokio::time::timeout(Duration::from_secs(3), h).await.is_ok()
+        }
+        "B" => {
+          let s = ctx.socket(SocketType::Pull).unwrap();
+          let ep = util::bind_fresh(&s, util::Transport::Tcp).await.unwrap();
+          let p = ctx.socket(SocketType::Push).unwrap();
+          p.connect(&ep).await.unwrap();
+          tokio::time::sleep(Duration::from_micros((it as u64 * 53) % 5000)).await;
+          let s2 = s.clone(); let p2 = p.clone(); let c2 = ctx.clone();
+          let h1 = tokio::spawn(async move { let _ = s2.close().await; });
+          let h2 = tokio::spawn(async move { let _ = p2.close().await; });
+          let h3 = tokio::spawn(async move { let _ = c2.term().await; });
+          let t = Instant::now();
+          let a = tokio::time::timeout(Duration::from_secs(15), async { let _ = h1.await; let _ = h2.await; let _ = h3.await; }).await.is_ok();
+          if !a { println!("  B: close/term concurrent did not finish in 15s"); }
+          let _ = t;
+          a
+        }
+        "C" => {
+          let d = ctx.socket(SocketType::Push).unwrap();
+          util::set_i32(&d, opt::RECONNECT_IVL, 20).await;
+          let _ = d.connect("tcp://127.0.0.1:9").await;
+          let r = ctx.socket(SocketType::Router).unwrap();
+          let ep = util::bind_fresh(&r, util::Transport::Tcp).await.unwrap();
+          let dl = ctx.socket(SocketType::Dealer).unwrap();
+          dl.connect(&ep).await.unwrap();
+          tokio::time::sleep(Duration::from_millis((it as u64 * 7) % 30)).await;
+          let _ = r.close().await; let _ = dl.close().await; let _ = d.close().await;
+          let t = Instant::now();
+          let _ = ctx.term().await;
+          let el = t.elapsed();
+          let la = rzmq::verif::live_actors(&ctx);
+          if el > Duration::from_secs(5) || la > 0 { println!("  C: term took {:?}, live actors {}", el, la); false } else { true }
+        }
+        "D" => {
+          let d = ctx.socket(SocketType::Push).unwrap();
+          util::set_i32(&d, opt::RECONNECT_IVL, 20).await;
+          let _ = d.connect("tcp://127.0.0.1:9").await;
+          tokio::time::sleep(Duration::from_millis((it as u64 * 7) % 60)).await;
+          let _ = d.close().await;
+          let t = Instant::now();
+          let _ = ctx.term().await;
+          let el = t.elapsed();
+          let la = rzmq::verif::live_actors(&ctx);
+          if el > Duration::from_secs(5) || la > 0 { println!("  D: sleep {}ms term took {:?}, live actors {}", (it as u64 * 7) % 60, el, la); false } else { true }
+        }
+        "E" => {
+          // no close, just term while retrying
+          let d = ctx.socket(SocketType::Push).unwrap();
+          util::set_i32(&d, opt::RECONNECT_IVL, 20).await;
+          let _ = d.connect("tcp://127.0.0.1:9").await;
+          tokio::time::sleep(Duration::from_millis((it as u64 * 7) % 60)).await;
+          let t = Instant::now();
+          let _ = ctx.term().await;
+          let el = t.elapsed();
+          let la = rzmq::verif::live_actors(&ctx);
+          if el > Duration::from_secs(5) || la > 0 { println!("  E: sleep {}ms term took {:?}, live actors {}", (it as u64 * 7) % 60, el, la); false } else { true }
+        }
+        "F" => {
+          // PULL with a raw peer stalled mid-handshake; a recv() is in flight while close()+term()
+          let s = ctx.socket(SocketType::Pull).unwrap();
+          util::set_i32(&s, opt::HANDSHAKE_IVL, 5000).await;
+          let ep = util::bind_fresh(&s, util::Transport::Tcp).await.unwrap();
+          let mut raw = vh::rawpeer::RawStream::connect(&ep).await.unwrap();
+          let _ = raw.write_all(&vh::refzmtp::greeting_v3(0, "NULL", false)[..20]).await;
+          let s2 = s.clone();
+          let h = tokio::spawn(async move { let r = s2.recv().await; r.is_err() });
+          tokio::time::sleep(Duration::from_millis(20 + (it as u64 * 7) % 40)).await;
+          let t = Instant::now();
+          let _ = s.close().await;
+          let _ = ctx.term().await;
+          let el = t.elapsed();
+          let ok = tokio::time::timeout(Duration::from_secs(3), h).await.is_ok();
+          if !ok { println!("  F: recv() still pending 3 s after close+term (which took {:?}); live actors {}", el, rzmq::verif::live_actors(&ctx)); }
+          drop(raw);
+          ok
+        }
+        "G" => {
+          // same without the raw peer
+          let s = ctx.socket(SocketType::Pull).unwrap();
+          let ep = util::bind_fresh(&s, util::Transport::Tcp).await.unwrap();
+          let p = ctx.socket(SocketType::Push).unwrap();
+          p.connect(&ep).await.unwrap();
+          let s2 = s.clone();
+          let h = tokio::spawn(async move { let r = s2.recv().await; r.is_err() });
+          tokio::time::sleep(Duration::from_millis(20 + (it as u64 * 7) % 40)).await;
+          let _ = s.close().await;
+          let _ = ctx.term().await;
+          let ok = tokio::time::timeout(Duration::from_secs(3), h).await.is_ok();
+          if !ok { println!("  G: recv() still pending 3 s after close+term; live actors {}", rzmq::verif::live_actors(&ctx)); }
+          ok
+        }
+        "A2" => {
+          // many option setters/getters on several sockets racing with term
+          let mut socks = vec![];
+          for t in [SocketType::Pull, SocketType::Push, SocketType::Dealer, SocketType::Router, SocketType::Sub, SocketType::Pub] {
+            socks.push(ctx.socket(t).unwrap());
+          }
+          let ep = util::bind_fresh(&socks[0], util::Transport::Tcp).await.unwrap();
+          socks[1].connect(&ep).await.unwrap();
+          let mut hs = vec![];
+          for s in &socks {
+            for k in 0..3 {
+              let s2 = s.clone();
+              hs.push(tokio::spawn(async move {
+                for i in 0..5000 {
+                  let r = if (i + k) % 2 == 0 { s2.set_option(opt::SNDTIMEO, -1).await } else { s2.get_option(opt::RCVHWM).await.map(|_| ()) };
+                  if r.is_err() { return; }
+                }
+              }));
+            }
+          }
+          tokio::time::sleep(Duration::from_micros((it as u64 * 371) % 9000)).await;
+          let _ = ctx.term().await;
+          let mut ok = true;
+          for h in hs { if tokio::time::timeout(Duration::from_secs(3), h).await.is_err() { ok = false; } }
+          if !ok { println!("  A2: an option call still pending 3 s after term"); }
+          ok
+        }
+        "L" => {
+          let rctx = util::new_ctx();
+          let pull = rctx.socket(SocketType::Pull).unwrap();
+          util::set_i32(&pull, opt::RCVTIMEO, 1500).await;
+          let ep = util::bind_fresh(&pull, util::Transport::Tcp).await.unwrap();
+          let push = ctx.socket(SocketType::Push).unwrap();
+          util::set_i32(&push, opt::LINGER, -1).await;
+          push.connect(&ep).await.unwrap();
+          tokio::time::sleep(Duration::from_millis(300)).await;
+          let n = 200;
+          for i in 0..n { push.send(util::msg(format!("m{}", i).into_bytes(), false)).await.unwrap(); }
+          let t = Instant::now();
+          let _ = push.close().await;
+          let ct = t.elapsed();
+          let mut got = 0;
+          while pull.recv().await.is_ok() { got += 1; }
+          println!("  L: LINGER=-1, {} sent+accepted, close took {:?}, received {}", n, ct, got);
+          let _ = rctx.term().await;
+          got == n
+        }
+        "H" => {
+          // REQ with no peer: send() waits for a connection; close()+term() must release it
+          let s = ctx.socket(SocketType::Req).unwrap();
+          let s2 = s.clone();
+          let h = tokio::spawn(async move { s2.send(util::msg(b"q".to_vec(), false)).await.is_err() });
+          tokio::time::sleep(Duration::from_millis(30)).await;
+          let _ = s.close().await;
+          let _ = ctx.term().await;
+          let ok = tokio::time::timeout(Duration::from_secs(3), h).await.is_ok();
+          if !ok { println!("  H: REQ send() still pending 3 s after close+term"); }
+          ok
+        }
+        _ => true,
+      }
+    });
+    if !r { hangs += 1; }
+  }
+  println!("case {} : {} problem(s) in {} iterations", which, hangs, iters);
+}
